@@ -2,6 +2,7 @@ package props
 
 import (
 	"bytes"
+	"context"
 	"encoding/xml"
 	"errors"
 	"fmt"
@@ -37,6 +38,7 @@ type c15Scen struct {
 	Coding     string    `json:"coding"` // "", gzip, deflate
 	ShortN     int       `json:"short_write_accepts"`
 	Middleware bool      `json:"http_middleware_between_filter_and_handler"`
+	MWKind     int       `json:"middleware_kind,omitempty"`  // 0 passes w and r through, 1 wraps the writer, 2 derives a request (WithContext), 3 both
 	NoProduces bool      `json:"route_declares_no_produces"` // with an Accept no writer serves, entity calls answer 406
 	DefaultCT  string    `json:"default_response_content_type,omitempty"`
 }
@@ -73,6 +75,9 @@ func genC15(x *Ctx) *c15Scen {
 	sc.Coding = []string{"", "", "gzip", "deflate"}[tp.G(4)]
 	sc.ShortN = tp.G(64)
 	sc.Middleware = tp.Chance(350)
+	if sc.Middleware {
+		sc.MWKind = tp.G(4)
+	}
 	if tp.Chance(150) {
 		sc.NoProduces = true
 		sc.Accept = []string{"", "*/*"}[tp.G(2)] // admitted by the router, served by no entity writer
@@ -83,6 +88,11 @@ func genC15(x *Ctx) *c15Scen {
 	}
 	return sc
 }
+
+// c15PassWriter is a writer wrapper that forwards everything.
+type c15PassWriter struct{ http.ResponseWriter }
+
+type c15CtxKey struct{}
 
 type c15Obs struct {
 	callErr   []error
@@ -117,7 +127,15 @@ func c15Exec(sc *c15Scen, mode, failAt int) *c15Obs {
 	if sc.Middleware {
 		// the documented adapter for net/http middlewares; a pass-through one
 		c.Filter(restful.HttpMiddlewareHandlerToFilter(func(next http.Handler) http.Handler {
-			return http.HandlerFunc(func(rw http.ResponseWriter, r *http.Request) { next.ServeHTTP(rw, r) })
+			return http.HandlerFunc(func(rw http.ResponseWriter, r *http.Request) {
+				if sc.MWKind&1 != 0 {
+					rw = &c15PassWriter{rw} // what a metrics or timeout middleware does
+				}
+				if sc.MWKind&2 != 0 {
+					r = r.WithContext(context.WithValue(r.Context(), c15CtxKey{}, 1))
+				}
+				next.ServeHTTP(rw, r)
+			})
 		}))
 	}
 	ws := new(restful.WebService).Path("/b")
@@ -219,7 +237,7 @@ func runC15(x *Ctx) {
 	fired := 0
 	for _, v := range vs {
 		o := v.obs
-		what := fmt.Sprintf("calls %s accept=%q pretty=%v coding=%q middleware=%v fault=%s@write#%d", jsonStr(sc.Calls), sc.Accept, sc.Pretty, sc.Coding, sc.Middleware, []string{"none", "fail", "short", "once"}[v.mode], v.at)
+		what := fmt.Sprintf("calls %s accept=%q pretty=%v coding=%q middleware=%v/%d fault=%s@write#%d", jsonStr(sc.Calls), sc.Accept, sc.Pretty, sc.Coding, sc.Middleware, sc.MWKind, []string{"none", "fail", "short", "once"}[v.mode], v.at)
 		if o.escaped != nil {
 			x.Violate("panic", "%s: panic %v", what, o.escaped)
 			continue
